@@ -49,6 +49,7 @@ class Replica:
 class ModelsWorld(World):
     PROPERTY = "C20"
     NAME = "models"
+    STEP_CAP = 400.0     # a clean-room replay or a hand-off starts a second interpreter (its own limit is 300 s)
 
     @classmethod
     def swarm(cls, rng, tier):
